@@ -18,6 +18,7 @@ VARIANTS = [
     V("recording-adapter-forgets-dir", A + "recording.py", "        self.audio_dir = audio_dir\n", "        self.audio_dir = None\n", "R18.1"),
     V("recordingset-dir-in-wrong-slot", A + "recording_set.py", "            self.user_adapter,\n            self.tag_adapter,\n            self.note_adapter,\n            audio_dir,\n        )",
       "            self.user_adapter,\n            self.tag_adapter,\n            self.note_adapter,\n        )", "R18.1"),
+    V("stored-path-annotation-loosened(G.5)", "src/soundevent/io/aoef/recording.py", "    path: Path\n", "    path: Union[str, Path]\n", "G.5", also=(("src/soundevent/io/aoef/recording.py", "from typing import", "from typing import Union  # noqa\nfrom typing import"),)),
     # neutral
     V("N-positional-to-keyword", A + "recording_set.py", "            self.note_adapter,\n            audio_dir,\n        )", "            self.note_adapter,\n            audio_dir=audio_dir,\n        )", None),
     V("N-is-none-inverted", A + "recording.py", "        path = obj.path\n        if self.audio_dir is not None:\n            path = self.audio_dir / obj.path\n",
